@@ -215,6 +215,140 @@ func DrawMsg(rt *rapid.T, nacc int) HMsg {
 	}
 }
 
+// ---------------------------------------------------------------------------
+// Hook operations: values of function / interface type handed to the hk realm
+// by MsgRun scripts (whose package gno.land/e/<addr>/run is ephemeral), by the
+// realm's own code or taken from another realm, and invoked in later blocks.
+
+func hkScript(decls, body string) string {
+	return "package main\n\nimport (\n\t\"gno.land/r/vv/ctr\"\n\t\"gno.land/r/vv/hk\"\n)\n\nvar _ = ctr.Render\n\n" +
+		decls + "\nfunc main(cur realm) {\n" + body + "}\n"
+}
+
+const hkTypeT = "type T struct{ S string }\n\nfunc (t T) Name() string { return \"T:\" + t.S }\n\ntype P struct{ N int }\n\nfunc (p *P) Name() string { p.N++; return \"P\" }\n"
+
+// HookSetBodies are MsgRun scripts that hand a script-made value to hk.
+var HookSetBodies = []string{
+	// function literal capturing a local of main
+	hkScript("", "\tgreeting := \"hello\"\n\thk.Set(cross(cur), func() string { return greeting + \" from the script\" })\n\tprintln(\"registered\")\n"),
+	// function literal capturing nothing
+	hkScript("", "\thk.Set(cross(cur), func() string { return \"lit\" })\n"),
+	// top-level function of the script
+	hkScript("func hook() string { return \"top-level\" }\n", "\thk.Set(cross(cur), hook)\n"),
+	// closure over a package variable of the script, mutating it
+	hkScript("var calls []string\n", "\thk.Set(cross(cur), func() string { calls = append(calls, \"c\"); return \"calls\" + string(rune('0'+len(calls))) })\n"),
+	// closure capturing a loop variable and a map
+	hkScript("", "\tm := map[string]int{\"a\": 1}\n\tfor i := 0; i < 3; i++ {\n\t\tif i == 1 {\n\t\t\thk.Set(cross(cur), func() string { m[\"a\"] += i; return \"loop\" + string(rune('0'+m[\"a\"])) })\n\t\t}\n\t}\n"),
+	// value of a script-declared type through the interface parameter
+	hkScript(hkTypeT, "\thk.SetAny(cross(cur), T{\"val\"})\n"),
+	// pointer to a value of a script-declared type
+	hkScript(hkTypeT, "\thk.SetAny(cross(cur), &P{})\n"),
+	// bound method value of a script-declared type
+	hkScript(hkTypeT, "\tt := T{\"meth\"}\n\thk.Set(cross(cur), t.Name)\n"),
+	// any-typed slot: script struct, script func, plain values
+	hkScript(hkTypeT, "\thk.Keep(cross(cur), T{\"kept\"})\n"),
+	hkScript("", "\tn := 41\n\thk.Keep(cross(cur), func(p string) string { n++; return p + string(rune('0'+n%10)) })\n"),
+	hkScript("", "\thk.Keep(cross(cur), \"plain\")\n"),
+	// a function of another (public) realm
+	hkScript("", "\thk.Keep(cross(cur), ctr.Render)\n"),
+	// a script function of Render type
+	hkScript("func render(p string) string { return \"script-render\" + p }\n", "\thk.Keep(cross(cur), render)\n"),
+	// set and fire inside the same transaction
+	hkScript("", "\tx := \"same-tx\"\n\thk.Set(cross(cur), func() string { return x })\n\tprintln(hk.Fire(cross(cur)))\n"),
+	// set, fire, then replace by a realm-made closure (nothing of the script stays)
+	hkScript("", "\thk.Set(cross(cur), func() string { return \"tmp\" })\n\tprintln(hk.Fire(cross(cur)))\n\thk.SetOwn(cross(cur), \"after\")\n"),
+}
+
+// HookFireBody is a MsgRun script invoking the stored values.
+var HookFireBody = hkScript("", "\tprintln(\"fired:\", hk.Fire(cross(cur)))\n")
+
+func isHookSet(m HMsg) bool {
+	return m.Kind == "run" && (strings.Contains(m.Body, "hk.Set") || strings.Contains(m.Body, "hk.Keep("))
+}
+
+func isHookFire(m HMsg) bool {
+	return (m.Kind == "call" && m.Pkg == PathHk && m.Fn == "Fire") || (m.Kind == "run" && m.Body == HookFireBody)
+}
+
+// HookSpan reports the first block holding a MsgRun that hands a value to hk
+// and the last later block that fires; ok is false when there is no such pair.
+func HookSpan(h History) (set, fire int, ok bool) {
+	set, fire = -1, -1
+	for bi, b := range h.Blocks {
+		for _, tx := range b.Txs {
+			for _, m := range tx.Msgs {
+				if set < 0 && isHookSet(m) {
+					set = bi
+				}
+				if set >= 0 && bi > set && isHookFire(m) {
+					fire = bi
+				}
+			}
+		}
+	}
+	return set, fire, set >= 0 && fire > set
+}
+
+func drawHookMsg(rt *rapid.T) HMsg {
+	switch rapid.IntRange(0, 9).Draw(rt, "hk") {
+	case 0, 1, 2:
+		return HMsg{Kind: "run", Body: rapid.SampledFrom(HookSetBodies).Draw(rt, "hkset")}
+	case 3:
+		return HMsg{Kind: "call", Pkg: PathHk, Fn: "SetOwn", Args: []string{rapid.StringMatching("[a-c]{0,6}").Draw(rt, "s")}}
+	case 4:
+		return HMsg{Kind: "call", Pkg: PathHk, Fn: "Clear"}
+	case 5, 6:
+		return HMsg{Kind: "run", Body: HookFireBody}
+	default:
+		return HMsg{Kind: "call", Pkg: PathHk, Fn: "Fire"}
+	}
+}
+
+func (h *History) insertTx(rt *rapid.T, b int, tx HTx) {
+	txs := h.Blocks[b].Txs
+	at := rapid.IntRange(0, len(txs)).Draw(rt, "at")
+	txs = append(txs, HTx{})
+	copy(txs[at+1:], txs[at:])
+	txs[at] = tx
+	h.Blocks[b].Txs = txs
+}
+
+// PlantHooks adds hook transactions to a drawn history: a MsgRun handing a
+// script-made value to hk in one block, a Fire (MsgCall or MsgRun, same or
+// other signer) in a later block, and a few more hook operations anywhere.
+func PlantHooks(rt *rapid.T, h *History) {
+	nb := len(h.Blocks)
+	if nb < 2 {
+		return
+	}
+	hookTx := func(signer int, m HMsg) HTx {
+		tx := HTx{Signer: signer, Fee: 1_000_000, Gas: 60_000_000, Msgs: []HMsg{m}}
+		if rapid.IntRange(0, 5).Draw(rt, "hkmore") == 0 {
+			tx.Msgs = append(tx.Msgs, DrawMsg(rt, h.NAcc))
+		}
+		return tx
+	}
+	signer := rapid.IntRange(0, h.NAcc-1).Draw(rt, "hksigner")
+	b := rapid.IntRange(0, nb-2).Draw(rt, "hksetblk")
+	h.insertTx(rt, b, hookTx(signer, HMsg{Kind: "run", Body: rapid.SampledFrom(HookSetBodies).Draw(rt, "hkset")}))
+	for k := rapid.IntRange(1, 2).Draw(rt, "hkfires"); k > 0; k-- {
+		f := rapid.IntRange(b+1, nb-1).Draw(rt, "hkfireblk")
+		s := signer
+		if rapid.IntRange(0, 2).Draw(rt, "hkother") == 0 {
+			s = rapid.IntRange(0, h.NAcc-1).Draw(rt, "hksigner2")
+		}
+		m := HMsg{Kind: "call", Pkg: PathHk, Fn: "Fire"}
+		if rapid.Bool().Draw(rt, "hkfirerun") {
+			m = HMsg{Kind: "run", Body: HookFireBody}
+		}
+		h.insertTx(rt, f, hookTx(s, m))
+	}
+	for k := rapid.IntRange(0, 3).Draw(rt, "hkextra"); k > 0; k-- {
+		h.insertTx(rt, rapid.IntRange(0, nb-1).Draw(rt, "hkblk"),
+			hookTx(rapid.IntRange(0, h.NAcc-1).Draw(rt, "hksigner3"), drawHookMsg(rt)))
+	}
+}
+
 // DrawTx draws one transaction. Gas is either ample, tight (likely to run
 // out inside the messages) or tiny (fails in the ante handler).
 func DrawTx(rt *rapid.T, nacc, maxMsgs int) HTx {
@@ -235,6 +369,7 @@ func DrawTx(rt *rapid.T, nacc, maxMsgs int) HTx {
 }
 
 // DrawHistory draws a history: block 1 always deploys the realm library.
+// About 70% of the histories carry hook operations (PlantHooks).
 func DrawHistory(rt *rapid.T, minBlocks, maxBlocks, maxTxs int) History {
 	h := History{NAcc: rapid.IntRange(2, 5).Draw(rt, "nacc")}
 	nb := rapid.IntRange(minBlocks, maxBlocks).Draw(rt, "nblocks")
@@ -245,6 +380,11 @@ func DrawHistory(rt *rapid.T, minBlocks, maxBlocks, maxTxs int) History {
 			blk.Txs = append(blk.Txs, DrawTx(rt, h.NAcc, 3))
 		}
 		h.Blocks = append(h.Blocks, blk)
+	}
+	// most histories also hand function / interface values to the hk realm and
+	// invoke them in later blocks
+	if rapid.IntRange(0, 9).Draw(rt, "hooks") < 7 {
+		PlantHooks(rt, &h)
 	}
 	return h
 }
